@@ -11,7 +11,7 @@ extra="$@"
 V=/verif
 wt=$(mktemp -d /tmp/seedwt.XXXXXX)
 rmdir "$wt"
-git -C /repo worktree add --detach "$wt" HEAD >/dev/null 2>&1 || { echo "worktree failed"; exit 2; }
+git -C /repo worktree add --detach "$wt" ${SEED_BASE:-HEAD} >/dev/null 2>&1 || { echo "worktree failed"; exit 2; }
 cleanup() { git -C /repo worktree remove --force "$wt" >/dev/null 2>&1; rm -rf "$wt"; }
 trap cleanup EXIT
 export PYTHONHASHSEED=0 MPLBACKEND=Agg PYTHONDONTWRITEBYTECODE=1
